@@ -491,6 +491,12 @@ def run_case(spec, ctx):
                 base["environment"] = {"HTTP_PROXY": "http://proxy", "other": 1}
                 base["vars"]["insights_signature_exclude"] = rng.choice(["/hosts,/environment/HTTP_PROXY", "/environment/other", "environment/HTTP_PROXY,/vars/insights_signature"])
                 what = "exclusion-of-child-of-other-mapping"
+            elif choice == 3 and rng.random() < 0.35:
+                # existing top-level keys whose names are parts of 'hosts' / 'vars' (or run across both)
+                k_ = rng.choice(["host", "var", "s", "ts", "osts", "tsv", "sva", "h", "hostsvars", "ar"])
+                base[k_] = rng.choice(["x", {"child": 1}, ["a"]])
+                base["vars"]["insights_signature_exclude"] = rng.choice(["/" + k_, "/hosts,/" + k_, "/" + k_ + "/child"])
+                what = "exclusion-outside-hosts-vars"
             elif choice == 3:
                 base["vars"]["insights_signature_exclude"] = rng.choice(["/tasks", "/hosts,/name", "/vars/a/b", "/hosts,/", "/vars/insights_signature,/when", "tasks/0", "/hosts/x/y"])
                 what = "exclusion-outside-hosts-vars"
